@@ -155,8 +155,12 @@ def main():
 
     # ---- code -> spec: call / pedigree dict caches ---------------------------------
     dt = []
-    for s in range(5 if quick else 15):
-        dt.append({"op": "call_trace", "P": [6, 2, 5, 3, 4][s % 5], "N": 3, "K": 4 + s % 3, "seed": ck.seed * 31 + s, "step_type": ["Gibbs", "Metropolis-Hastings"][s % 2], "steps": 10 if quick else 30})
+    # ploidies 2-7 (keys must stay distinct for every ploidy) and loci with up to 40 known haplotypes (keys must stay
+    # distinct for every allele index)
+    shapes = [(6, 3, 4), (2, 3, 5), (5, 3, 6), (3, 6, 40), (4, 5, 28), (7, 5, 26), (3, 6, 36), (2, 5, 30), (4, 3, 6), (1, 6, 40)]
+    for s in range(7 if quick else 20):
+        P_, N_, K_ = shapes[s % len(shapes)]
+        dt.append({"op": "call_trace", "P": P_, "N": N_, "K": K_, "seed": ck.seed * 31 + s, "step_type": ["Gibbs", "Metropolis-Hastings"][s % 2], "steps": 10 if quick else 30})
     peds = [("trio", [1, 6, 3]), ("trio", [6, 1, 3]), ("trio_rev", [1, 6, 3]), ("tetra", [2, 7, 4]), ("mixed", [1, 5, 3]), ("mixed", [5, 1, 3]), ("halfsib", [1, 6, 2, 3, 3])]
     for s in range(2 if quick else 8):
         for ped, nd in peds:
